@@ -523,6 +523,72 @@ func handAnim(p *c16Parts, r *Rand) (data []byte, wf bool, kind string) {
 	return riffFile(body), wf, fmt.Sprintf("handanim-flag=%v-anim%d-frames=%s", flagAnim, animMode, kinds)
 }
 
+// c16FlagFlips: files whose VP8X flags are inconsistent with the chunks present.  For a well-formed VP8X file
+// (still or animation) each single flag bit is flipped.  (1) Whatever the readers make of such a file, they must
+// agree: container.Parser (GetFeatures / DecodeConfig), mux.Demuxer and animation.DecodeBytes all reject it, or
+// all accept it with the same canvas, animation flag, frame count (and loop count when animated).  (2) What it
+// must be: the grammar (RiffGrammar.ext_ok) admits none of these files.  The container specification is explicit
+// for two families -- reserved bits (this module, like libwebp, refuses them) and the animation flag ("if the
+// Animation flag is not set and this chunk is present, it MUST be ignored", so an animation with the flag cleared
+// has no image, and a still with the flag set has no ANIM/ANMF) -- so those must be rejected by all; for the
+// alpha / ICC / EXIF / XMP bits the specification leaves readers free, and the outcome is only counted.
+func c16FlagFlips(c *Ctx, base *c16File) {
+	if len(base.Data) < 30 || string(base.Data[12:16]) != "VP8X" {
+		return
+	}
+	for _, fb := range []struct {
+		bit        byte
+		name       string
+		mustReject bool
+	}{{0x02, "animation", true}, {0x10, "alpha", false}, {0x20, "icc", false}, {0x08, "exif", false}, {0x04, "xmp", false},
+		{0x01, "reserved-bit0", true}, {0x40, "reserved-bit6", true}, {0x80, "reserved-bit7", true}} {
+		d := append([]byte(nil), base.Data...)
+		d[20] ^= fb.bit
+		kind := "flagflip-" + fb.name + "-of-" + base.Kind
+		keyName := fb.name
+		if strings.HasPrefix(keyName, "reserved") {
+			keyName = "reserved"
+		}
+		f := c16File{Kind: kind, Data: d, Animated: base.Animated}
+		c16Check(c, &f) // correspondence with the parser / glue models, clause (a)
+		o := observe(d)
+		replay := map[string]any{"kind": kind, "file": hx(d), "flipped_bit": fb.bit, "observed": o}
+		pAcc, dAcc, aAcc := o.Feat != "E", o.Dmx != "E", o.Anim != "E"
+		outcome := "all-reject"
+		switch {
+		case pAcc && dAcc && aAcc:
+			outcome = "all-accept"
+			var fw, fh, ffmt, floop, fcount int
+			var fa, fan string
+			fmt.Sscanf(o.Feat, "%d,%d,%1s,%1s,%d,%d,%d", &fw, &fh, &fa, &fan, &ffmt, &floop, &fcount)
+			var dw, dh, dn, dl int
+			var da string
+			fmt.Sscanf(o.Dmx, "%d,%d,%1s,%d,%d", &dw, &dh, &da, &dn, &dl)
+			var aw, ah, an, al int
+			fmt.Sscanf(o.Anim, "%d,%d,%d,%d", &aw, &ah, &an, &al)
+			if dw != fw || dh != fh || aw != fw || ah != fh || da != fan || dn != fcount || an != fcount || (fan == "1" && (dl != floop || al != floop)) {
+				outcome = "accept-with-different-values"
+				c.Violate("views-disagree-on-flag:"+keyName, fmt.Sprintf("VP8X %s bit flipped: GetFeatures %s, demuxer %s, DecodeBytes %s", fb.name, o.Feat, o.Dmx, o.Anim), replay)
+			}
+		case pAcc || dAcc || aAcc:
+			outcome = fmt.Sprintf("split(parser=%v,demuxer=%v,DecodeBytes=%v)", pAcc, dAcc, aAcc)
+			c.Violate("views-disagree-on-flag:"+keyName, fmt.Sprintf("VP8X %s bit flipped: GetFeatures accepts=%v, demuxer accepts=%v, DecodeBytes accepts=%v", fb.name, pAcc, dAcc, aAcc), replay)
+		}
+		if (o.Cfg != "E") != pAcc {
+			c.Violate("views-disagree-on-flag:"+keyName+":config", fmt.Sprintf("VP8X %s bit flipped: DecodeConfig accepts=%v, GetFeatures accepts=%v", fb.name, o.Cfg != "E", pAcc), replay)
+		}
+		if fb.mustReject && outcome == "all-accept" {
+			c.Violate("inconsistent-"+keyName+"-flag-accepted", "a file whose VP8X "+fb.name+" bit contradicts its chunks (not admitted by the grammar; the container specification tells readers to ignore ANIM/ANMF without the flag, resp. requires them with it / reserves the bit) is accepted by every reader", replay)
+		}
+		animated := "still"
+		if base.Animated {
+			animated = "animation"
+		}
+		c.Count("flagflip:" + fb.name + ":" + animated + ":" + outcome)
+		c.Nontrivial("flagflip|" + fb.name + "|" + animated + "|" + outcome)
+	}
+}
+
 // c16Limits: the shared limits of the two container parsers on the real code, direct evaluation only
 // (these files are too large for the extracted list-based model): C16_too_many_frames_both_reject,
 // C16_big_iccp_both_reject, and the note about trailing EXIF above the cap in a still.
@@ -903,6 +969,36 @@ func main() {
 		_ = color.NRGBAModel
 		for i := range files {
 			c16Check(c, &files[i])
+		}
+		// 5b. VP8X flags inconsistent with the chunks: every flag bit flipped on a sample of the well-formed VP8X files
+		{
+			var stills, anims []int
+			for i := range files {
+				if files[i].WF && len(files[i].Data) >= 30 && string(files[i].Data[12:16]) == "VP8X" {
+					if files[i].Animated {
+						anims = append(anims, i)
+					} else {
+						stills = append(stills, i)
+					}
+				}
+			}
+			pickN := func(ix []int, n int) []int {
+				if len(ix) <= n || c.Thorough() && len(ix) <= 8*n {
+					return ix
+				}
+				if c.Thorough() {
+					n *= 8
+				}
+				var out []int
+				for k := 0; k < n; k++ {
+					out = append(out, ix[k*len(ix)/n])
+				}
+				return out
+			}
+			for _, i := range append(pickN(stills, 30), pickN(anims, 30)...) {
+				bf := files[i]
+				c16FlagFlips(c, &bf)
+			}
 		}
 		// 6. the shared limits (10000 frames, 100 MB metadata), direct evaluation
 		c16Limits(c, &parts[0], c.Thorough())
